@@ -21,6 +21,7 @@ type jDef struct {
 	Null bool   `json:"null"`
 	To1  bool   `json:"to1"`
 	TT   string `json:"tt"`
+	TN   string `json:"-"` // name of the inverse relationship (not part of what the specifications see)
 }
 
 // jVal is an abstract value: nil, a rank, or relationship ids.
@@ -121,7 +122,7 @@ func (km kindMap) attr(name string, d jDef) jsonapi.Attr {
 }
 
 func relOf(typeName, name string, d jDef) jsonapi.Rel {
-	return jsonapi.Rel{FromType: typeName, FromName: name, ToOne: d.To1, ToType: d.TT}
+	return jsonapi.Rel{FromType: typeName, FromName: name, ToOne: d.To1, ToType: d.TT, ToName: d.TN}
 }
 
 // softType builds a jsonapi.Type from abstract definitions.
@@ -196,6 +197,9 @@ func structType(name string, fields defMap, km kindMap) reflect.Type {
 				typ = reflect.TypeOf([]string{})
 			}
 			api = "rel," + d.TT
+			if d.TN != "" {
+				api += "," + d.TN
+			}
 		}
 		sf = append(sf, reflect.StructField{
 			Name: fmt.Sprintf("F%d", i), Type: typ,
